@@ -137,11 +137,24 @@ def c05(ck, thorough):
 
 def c06(ck, thorough):
     """packed searchers"""
-    mc(ck, "ACPacked", "c06_packed",
-       {"Sigma": tla_set([0, 1, 2]), "NybbleBase": 2, "MaxPats": 2, "MaxPatLen": 3 if thorough else 2,
-        "MaxHay": 6 if thorough else 4, "Vs": tla_set([2, 4]), "Bs": tla_set([2, 3] if thorough else [2]),
-        "Kinds": tla_set(["lf", "ll"])},
-       ["PackedCorrect", "LoadInBounds", "MatchInSpan", "Coverage", "CarryAdjacent"], view="View")
+    if not thorough:
+        mc(ck, "ACPacked", "c06_packed",
+           {"Sigma": tla_set([0, 1, 2]), "NybbleBase": 2, "MaxPats": 2, "MaxPatLen": 2, "MaxHay": 4,
+            "Vs": tla_set([2, 4]), "Bs": tla_set([2]), "Kinds": tla_set(["lf", "ll"])},
+           ["PackedCorrect", "LoadInBounds", "MatchInSpan", "Coverage", "CarryAdjacent"], view="View")
+    else:
+        # longer haystacks (more windows, width-4 vectors without fallback) with short patterns ...
+        mc(ck, "ACPacked", "c06_packed_a",
+           {"Sigma": tla_set([0, 1, 2]), "NybbleBase": 2, "MaxPats": 2, "MaxPatLen": 2, "MaxHay": 6,
+            "Vs": tla_set([2, 4]), "Bs": tla_set([2, 3]), "Kinds": tla_set(["lf", "ll"])},
+           ["PackedCorrect", "LoadInBounds", "MatchInSpan", "Coverage", "CarryAdjacent"], view="View",
+           timeout=6000)
+        # ... and 3-byte fingerprints (carry over two bytes) on shorter ones
+        mc(ck, "ACPacked", "c06_packed_b",
+           {"Sigma": tla_set([0, 1, 2]), "NybbleBase": 2, "MaxPats": 1, "MaxPatLen": 4, "MaxHay": 7,
+            "Vs": tla_set([2, 4]), "Bs": tla_set([2]), "Kinds": tla_set(["lf"])},
+           ["PackedCorrect", "LoadInBounds", "MatchInSpan", "Coverage", "CarryAdjacent"], view="View",
+           timeout=6000)
     calls(ck, "c06_packed", "all", scale=4 if thorough else 1, sub="packed")
 
 
